@@ -104,6 +104,7 @@ func exprStringStmt(st ast.Stmt) string {
 }
 
 func extractC11Wire(l *lean, issF, verF *ast.File) {
+	extractC11Resolve(l)
 	_, typF := parseFile("vcr/revocation/types.go")
 	conds, rets := c11IfChain(c11Method(typF, "StatusList2021Entry", "Validate"))
 	l.def("entryValidateChain", "List String", leanStrList(conds), conds)
